@@ -166,7 +166,7 @@ B("C07-b06", "trailing-slot check after the table store", TDF,
 B("C07-b07", "duplicate check after the entry was written", TDF,
   "        if newBlock.type != BlockType.unusedSlot and any(\n            entry.type == newBlock.type for entry in self.entries\n        ):\n            raise ValueError(\n                (\n                    f\"There's already a block of this type {newBlock.type}\"\n                    \" .Remove it first\"\n                )\n            )\n", "",
   TDF, "        # update all unused slots's offset\n", "        if any(entry.type == newBlock.type for entry in self.entries[:unusedBlockPos]):\n            raise ValueError(\"duplicate\")\n        # update all unused slots's offset\n", expect="validate-before-effect")
-P("C07-p01", "permission check spelled differently", TDF, "        if self._mode == \"rb\":\n            raise PermissionError(\n                \"Can't add blocks", "        if \"+\" not in self._mode:\n            raise PermissionError(\n                \"Can't add blocks")
+P("C07-p01", "permission check spelled differently", TDF, "        if not self.handler.writable():\n            raise PermissionError(\n                \"Can't add blocks", "        if self.handler.writable() is False:\n            raise PermissionError(\n                \"Can't add blocks")
 P("C07-p02", "buffers created inline", TDF, "        block_buffer = BytesIO()\n        newBlock._write(block_buffer)\n", "        block_buffer = BytesIO()\n        newBlock._write(block_buffer)\n        payload_size = len(block_buffer.getvalue())\n")
 
 # ------------------------------------------------------------------------------------------------ C08
